@@ -35,7 +35,9 @@ func matcherName(m int) string {
 func clampForBT(r gen.Recipe, limit int) gen.Recipe {
 	for i := range r {
 		s := &r[i]
-		runlike := s.Kind == "zeros" || s.Kind == "run" || (s.Kind == "copyback" && s.Dist < 64) || (s.Kind == "text" && s.K <= 1)
+		// run-like or periodic data (a copy at ANY distance is periodic, a
+		// counter has period 256, a two-letter text has little entropy)
+		runlike := s.Kind == "zeros" || s.Kind == "run" || s.Kind == "copyback" || s.Kind == "counter" || (s.Kind == "text" && s.K <= 2)
 		if runlike && s.Len > limit {
 			s.Len = limit
 		}
@@ -119,6 +121,16 @@ func drawXZCase(t *rapid.T) caseXZ {
 			{Kind: "copyback", Len: rapid.IntRange(5<<20, 6<<20).Draw(t, "w3"), Dist: rapid.IntRange(1<<20, 3<<20).Draw(t, "wd")},
 			{Kind: "text", K: 4, Len: rapid.IntRange(1000, 100000).Draw(t, "w4"), Seed: rapid.Uint64().Draw(t, "ws4")},
 		}
+	}
+	if rapid.IntRange(0, 39).Draw(t, "manyblocks") == 0 {
+		// thousands of tiny blocks: an index of more than 4 KiB (2 bytes per
+		// record) and more than 2^7 / 2^14 records; cheap with the smallest
+		// dictionary
+		c.Cfg.DictCap, c.Cfg.Matcher = 4096, 0
+		c.Cfg.BlockSize = int64(rapid.IntRange(1, 3).Draw(t, "mbsize"))
+		nb := rapid.SampledFrom([]int{127, 128, 129, 1000, 2100, 2800, 3600}).Draw(t, "mbcount")
+		c.Data = gen.Recipe{{Kind: "text", K: 26, Len: nb*int(c.Cfg.BlockSize) - rapid.IntRange(0, int(c.Cfg.BlockSize)-1).Draw(t, "mbrem"), Seed: rapid.Uint64().Draw(t, "mbseed")}}
+		forceSingle = rapid.Bool().Draw(t, "mbsingle")
 	}
 	if c.Cfg.Matcher == 1 {
 		c.Data = clampForBT(c.Data, 12000)
